@@ -262,6 +262,8 @@ func (a *An) c09Forget() {
 		R.Check(found, rule, ax.fn+"|match", "records are selected by equality of the id on this axis with the retired id", a.C.InstrPos(appRet), "facts: "+strings.Join(filterFacts(fs.List()), "; "))
 		if elems := a.C.variadicElems(appRet.Call.Args[1]); len(elems) == 1 {
 			R.Check(strings.HasSuffix(a.C.Term(elems[0]), ".receivingKey"), rule, ax.fn+"|what", "the receiving MAC key of the record is returned", a.C.InstrPos(appRet), "returns "+a.C.Term(elems[0]))
+		} else {
+			R.Viol(rule, ax.fn+"|what", "exactly the receiving MAC key of the record is returned", a.C.InstrPos(appRet), "returns "+a.C.Term(appRet.Call.Args[1])+": anything else that is disclosed (a sending MAC key, say) lets a reader of the wire forge messages the peer still accepts")
 		}
 		if c := a.uniqueCall(rule, fn, "(*macKeyHistory).deleteKeysAt"); c != nil {
 			for _, r := range a.returnsOf(fn) {
